@@ -205,14 +205,15 @@ def Heap.pickle (E : HEnv F D Mat Vec) (h : Heap F D Mat Vec) (i : Nat) : Heap F
     obj := upd h.obj h.nobj { buf := h.nbuf, tr := false, data := h.ndata, orbFrame := v.orbFrame }, nobj := h.nobj + 1 }
 
 /-- `sv_s.cov = obj_i`: the state remembers the object; `Cov.orb` setter stores a new private copy
-of the state in the object's dict; `_orb_frame` is not touched -/
+of the state in the object's dict and (since /repo eca9727) sets the object's `_orb_frame` to the frame of that copy -/
 def Heap.attach (h : Heap F D Mat Vec) (s i : Nat) : Heap F D Mat Vec :=
   let v := h.sv s
   let o := h.obj i
   { h with
     sv := upd h.sv s { v with cov := some i },
     orb := upd h.orb h.norb { date := v.date, frame := v.frame, x := v.x }, norb := h.norb + 1,
-    data := upd h.data o.data { h.data o.data with orb := h.norb } }
+    data := upd h.data o.data { h.data o.data with orb := h.norb },
+    obj := upd h.obj i { o with orbFrame := some v.frame } }
 
 /-- `sv_s.frame = g`: the state is re-expressed, then an attached covariance tagged with the frame
 the state had follows; when that assignment raises, the state is put back where it was (since /repo
